@@ -9,6 +9,7 @@ import (
 	"strconv"
 	"strings"
 
+	"github.com/HobbyOSs/gosk/pkg/cpu"
 	"github.com/HobbyOSs/gosk/pkg/ng_operand"
 )
 
@@ -250,6 +251,8 @@ func specAtoiOK(s string) bool {
 // SIB byte of the operands. The clauses speak about the calls the function makes (ghost call log).
 // ---------------------------------------------------------------------------
 
+var _ cpu.BitMode
+
 func specB2I(b bool) int {
 	if b {
 		return 1
@@ -277,11 +280,29 @@ func specB2I(b bool) int {
 // Thin safety-only contracts (C13): these functions get one obligation per panic site; callers keep
 // using their bodies (option inline).
 
+// IN/OUT: the operand-size prefix is counted exactly when the accumulator operand (IN: the first; OUT:
+// the second, after DX or an immediate port of whatever immediate type the parser gave it) is the
+// 16-bit one in 32-bit mode or the 32-bit one in 16-bit mode - the rule the emitter follows
+// (codegen specNeed66InOut).
+func specNeed66T(mode int, ts []ng_operand.OperandType, i int) bool {
+	if i >= len(ts) {
+		return false
+	}
+	t := ts[i]
+	return (mode == 16 && t.IsR32Type()) || (mode == 32 && t.IsR16Type())
+}
+
+func specIsImmT(t ng_operand.OperandType) bool {
+	return t == ng_operand.CodeIMM || t == ng_operand.CodeIMM8 || t == ng_operand.CodeIMM16 || t == ng_operand.CodeIMM32
+}
+
 //@ func getPrefix66SizeForInOut
-//@ props C13
+//@ props C13 C03
 //@ option inline
 //@ requires operands != nil
 //@ ensures[safe] true
+//@ ensures[in@C03] upperOpcode == "IN" ==> result0 == specB2I(specNeed66T(int(vcResult[cpu.BitMode]("GetBitMode", 0)), vcResult[[]ng_operand.OperandType]("OperandTypes", 0), 0))
+//@ ensures[out@C03] upperOpcode == "OUT" && len(vcResult[[]ng_operand.OperandType]("OperandTypes", 0)) > 1 && (vcResult[[]ng_operand.OperandType]("OperandTypes", 0)[0] == ng_operand.CodeDX || specIsImmT(vcResult[[]ng_operand.OperandType]("OperandTypes", 0)[0])) ==> result0 == specB2I(specNeed66T(int(vcResult[cpu.BitMode]("GetBitMode", 0)), vcResult[[]ng_operand.OperandType]("OperandTypes", 0), 1))
 
 //@ func hasAccumulator
 //@ props C13
